@@ -86,7 +86,10 @@ def _collapse_preconditions(
             ).format(func.__qualname__)
         )
 
-    return base_preconditions + preconditions
+    # The groups collected from the bases need to be copied. Otherwise, the function would share the group lists
+    # with the functions of the bases, and a precondition added to the function later (*e.g.*, by decorating it after
+    # the class has been created) would be added to the preconditions of the bases as well.
+    return [list(group) for group in base_preconditions] + preconditions
 
 
 def _collapse_snapshots(
